@@ -59,31 +59,33 @@ class Builder:
         inner = self.wrap(rest, x, depth + 1, in_fn or w == "call")
         first = self.fresh("first")
         guard = [f"if {first} {{", f"    {first} = false;"] + ["    " + l for l in inner] + ["};"]
-        after_inner = [f'println("after-inner {w}{depth}", {v});']
-        body = [f"let {v} = {depth + 1};"] + guard + after_inner
+        # `k` is declared anew at every level (shadowing): a scope that is not popped, or popped twice,
+        # on some way out shows up as a wrong `k` in the code that runs afterwards
+        after_inner = [f'println("after-inner {w}{depth}", {v}, k);']
+        body = [f"let {v} = {depth + 1};", f"let k = {10 * (depth + 1)};"] + guard + after_inner
         ind = lambda ls: ["    " + l for l in ls]
         pre = [f"let {first} = true;"]
         if w == "loop":
-            return pre + [f"let {c} = 0;", "loop {", f"    if {c} >= 2 {{ break; }}", f"    {c} += 1;"] + ind(body) + ["}", f'println("after loop{depth}", {c});']
+            return pre + [f"let {c} = 0;", "loop {", f"    if {c} >= 2 {{ break; }}", f"    {c} += 1;"] + ind(body) + ["}", f'println("after loop{depth}", {c}, k);']
         if w == "while":
-            return pre + [f"let {c} = 0;", f"while {c} < 2 {{", f"    {c} += 1;"] + ind(body) + ["}", f'println("after while{depth}", {c});']
+            return pre + [f"let {c} = 0;", f"while {c} < 2 {{", f"    {c} += 1;"] + ind(body) + ["}", f'println("after while{depth}", {c}, k);']
         if w == "for":
-            return pre + [f"for {c} in 0..2 {{"] + ind(body) + ["}", f'println("after for{depth}");']
+            return pre + [f"for {c} in 0..2 {{"] + ind(body) + ["}", f'println("after for{depth}", k);']
         if w == "block":
-            return pre + ["{"] + ind(body) + ["};", f'println("after block{depth}");']
+            return pre + ["{"] + ind(body) + ["};", f'println("after block{depth}", k);']
         if w == "if":
-            return pre + ["if true {"] + ind(body) + ["};", f'println("after if{depth}");']
+            return pre + ["if true {"] + ind(body) + ["};", f'println("after if{depth}", k);']
         if w == "match":
-            return pre + ["match 1 {", "    1 => {"] + ind(ind(body)) + ["    },", "    _ => {},", "};", f'println("after match{depth}");']
+            return pre + ["match 1 {", "    1 => {"] + ind(ind(body)) + ["    },", "    _ => {},", "};", f'println("after match{depth}", k);']
         if w == "try":
             return pre + ["try {"] + ind(body) + [f"}} catch {c} {{", f'    println("caught{depth}", {c}.message, {c}.line > 0);', "};",
-                          f'println("after try{depth}");']
+                          f'println("after try{depth}", k);']
         if w == "catch":
-            return pre + ["try {", f'    throw("enter{depth}");', f"}} catch {c} {{"] + ind(body) + ["};", f'println("after catch{depth}");']
+            return pre + ["try {", f'    throw("enter{depth}");', f"}} catch {c} {{"] + ind(body) + ["};", f'println("after catch{depth}", k);']
         if w == "call":
             f = self.fresh("f")
-            self.fns.append([f"fn {f}() -> int {{", "    let zero = 0;"] + ind(pre + body) + ["    0", "}"])
-            return [f"println({f}());", f"println({f}());", f'println("after call{depth}");']
+            self.fns.append([f"fn {f}() -> int {{", "    let zero = 0;", f"    let k = {5 + depth};"] + ind(pre + body) + ["    0", "}"])
+            return [f"println({f}());", f"println({f}());", f'println("after call{depth}", k);']
         raise ValueError(w)
 
 
@@ -93,7 +95,7 @@ def program(ws, x):
     lines = ['fn boom_i() -> int { throw("boom i"); }', 'fn boom_n() { throw("boom n"); }']
     for f in b.fns:
         lines += f
-    lines += ["fn main() {", "    let zero = 0;"] + ["    " + l for l in main] + ['    println("end of main");', "}"]
+    lines += ["fn main() {", "    let zero = 0;", "    let k = 1;"] + ["    " + l for l in main] + ['    println("end of main", k);', "}"]
     return "\n".join(lines) + "\n"
 
 
